@@ -64,6 +64,12 @@ func (v *PointerSchema) process(ctx *p.SchemaCtx) {
 	if fn, ok := ctx.Data.(p.DpFactory); ok {
 		val, err := fn()
 		if err != nil {
+			if err.Dtype == "" {
+				err.SetDType(v.schema.getType())
+			}
+			if err.Path == "" {
+				err.SetPath(ctx.Path.String())
+			}
 			ctx.AddIssue(subCtx.IssueFromUnknownError(err))
 			return
 		}
